@@ -118,11 +118,22 @@ Fourth round (C15) and third round (C17, C19):
   and the same consumer does not build with `{}` or `{alloc}`, that is `C19.build consumer-<set>`. `m2` (`Display` honouring width, fill and
   precision only with alloc): formatting now also goes through `{:>44}`, `{:<5}`, `{:*^50}`, `{:.3}` into the stack buffer.
 
+Two-site breakages (`seeded/C07-duo2-m1`, `C08-duo2-m2`, `C17-duo2-m3`): each consists of two edits in different functions that are
+harmless alone (a relaxed range check in `TimeZoneRef::new` + a hoisted index in `find`; explicit enum discriminants + a numeric version
+comparison; an up-front validation in `find_n` + a reordered range check in the shared search). All three combinations were caught by the
+machinery as it was; each single half was run as well and stayed silent - except the half that on its own already accepts a file whose
+last transition type index is out of range, which C08 reports (correctly: that half alone violates C08, as its author noted).
+
 False alarms: an independent agent wrote eight behaviour-preserving changes (`/verif/benign/b1..b8`: rewritten binary searches, restructured
 TZif block parsing with checked sizes, a different `TzAsciiStr` representation, Hinnant's civil-from-days in `from_timespec`, `find_date_time`
 split into helpers, a local `Vec<String>` of candidate paths in `read_tz_file`, reworded error messages plus extra derives and `#[inline]`s,
 a merged `AlternateTime::find_local_time_type`), each verified by that agent with a differential harness against HEAD. All six checks stayed
-silent on all eight (`tools/benign.py`, 48 runs, `benign/*/result.json`).
+silent on all eight (`tools/benign.py`, 48 runs, `benign/*/result.json`), also after the later oracles (static/TLS comparison, system-call seam,
+zone-memory digest) were added. A second batch (`benign/b21..b28`) was written to come close to those tripwires without crossing them: call-local
+`HashSet`s in the std build (which bump std's per-thread hash seed - calibrated out of the TLS comparison, see section 11), read-only `static` tables,
+different allocation patterns in the decoder (peak below the bound), additive public API including a new public type, reordered error variants with
+hand-written `Debug`, byte-level trimming, a two-entry local cache in the search, code moved into a new module with `#[cold]` helpers and `i128`
+intermediates. All six checks stayed silent on all eight again.
 
 Residual risk, stated plainly: a data race on state reached only through pointers (so that no static or TLS byte changes) that needs a
 preemption between two specific instructions is found by the Miri tier only with luck; tier A never preempts inside a call.
